@@ -174,11 +174,22 @@ pub fn load_scripts(args: &Args) -> Vec<Script> {
             let (profile, count) = part.split_once(':').unwrap_or((part, "1"));
             let count: u64 = count.parse().unwrap();
             for idx in 0..count {
+                // an aimed script is generated once (adaptively, against a live log) and then used
+                // unchanged under every policy: the order in which a GC pass records the empty
+                // queues is not deterministic, so two generations may aim differently
+                let aimed_base = if aimed::is_aimed(profile) {
+                    Some(aimed::generate(profile, seed * 1_000_003 + idx, &policies[0]))
+                } else {
+                    None
+                };
                 for policy in &policies {
-                    let mut script = if aimed::is_aimed(profile) {
-                        aimed::generate(profile, seed * 1_000_003 + idx, policy)
-                    } else {
-                        gen::generate(profile, seed * 1_000_003 + idx, policy)
+                    let mut script = match &aimed_base {
+                        Some(base) => {
+                            let mut script = base.clone();
+                            script.policy = policy.clone();
+                            script
+                        }
+                        None => gen::generate(profile, seed * 1_000_003 + idx, policy),
                     };
                     if policies.len() > 1 {
                         script.name = format!("{}@{}", script.name, policy);
